@@ -799,6 +799,14 @@ def canonical_accumulations(stmts: list[ast.stmt]) -> list[ast.stmt]:
         if isinstance(st, ast.Try):
             for h in st.handlers:
                 h.body = canonical_accumulations(h.body)
+        # xs = []; ys = []; for T in IT: [if C:] xs.append(E); ys.append(F)   →   one comprehension per list (loop fission:
+        # the iterable and the guard are evaluated the same way in each, nothing reads the lists being built)
+        fis = _fission(stmts, i)
+        if fis is not None:
+            new_stmts, consumed = fis
+            out.extend(new_stmts)
+            i += consumed
+            continue
         # xs = [] ... for T in IT: [if C:] xs.append(E)
         if isinstance(st, (ast.Assign, ast.AnnAssign)) and st.value is not None:
             tgt = st.targets[0] if isinstance(st, ast.Assign) else st.target
@@ -838,6 +846,64 @@ def canonical_accumulations(stmts: list[ast.stmt]) -> list[ast.stmt]:
         out.append(st)
         i += 1
     return out
+
+
+def _fission(stmts: list[ast.stmt], i: int):
+    """`a = []; b = []; for T in IT: [if C:] a.append(E); b.append(F)` → `a = [E for T in IT if C]; b = [F for T in IT if C]`.
+    Returns (replacement statements, number of statements consumed) or None."""
+    names: list[str] = []
+    inits: list[ast.stmt] = []
+    j = i
+    while j < len(stmts):
+        st = stmts[j]
+        if isinstance(st, (ast.Assign, ast.AnnAssign)) and st.value is not None:
+            tgt = st.targets[0] if isinstance(st, ast.Assign) and len(st.targets) == 1 else (st.target if isinstance(st, ast.AnnAssign) else None)
+            if isinstance(tgt, ast.Name) and ((isinstance(st.value, ast.List) and not st.value.elts) or (isinstance(st.value, ast.Call) and norm(st.value) == "list()")):
+                names.append(tgt.id)
+                inits.append(st)
+                j += 1
+                continue
+        break
+    if len(names) < 2 or j >= len(stmts) or not isinstance(stmts[j], ast.For) or stmts[j].orelse or len(set(names)) != len(names):
+        return None
+    lp = stmts[j]
+    body = _subst_leading_assigns(lp.body)
+    conds = []
+    while True:
+        g = _guarded_single(body) if len(body) == 1 else None
+        if g is None:
+            break
+        conds.append(g[0])
+        body = g[1]
+    if len(body) != len(names):
+        return None
+    elts: dict[str, ast.expr] = {}
+    for b in body:
+        if not (isinstance(b, ast.Expr) and isinstance(b.value, ast.Call) and isinstance(b.value.func, ast.Attribute) and b.value.func.attr == "append"
+                and isinstance(b.value.func.value, ast.Name) and b.value.func.value.id in names and len(b.value.args) == 1 and not b.value.keywords):
+            return None
+        if b.value.func.value.id in elts:
+            return None
+        elts[b.value.func.value.id] = b.value.args[0]
+    if set(elts) != set(names):
+        return None
+    reads = {n.id for x in [lp.iter, *conds, *elts.values()] for n in ast.walk(x) if isinstance(n, ast.Name)}
+    if reads & set(names) or any(isinstance(n, (ast.Call,)) and not _pure_call(n) for x in [lp.iter, *conds, *elts.values()] for n in ast.walk(x)):
+        return None
+    out = []
+    for nm, init in zip(names, inits):
+        comp = ast.ListComp(elt=copy.deepcopy(elts[nm]), generators=[ast.comprehension(target=copy.deepcopy(lp.target), iter=copy.deepcopy(lp.iter), ifs=[copy.deepcopy(c) for c in conds], is_async=0)])
+        a = ast.Assign(targets=[ast.Name(id=nm, ctx=ast.Store())], value=comp, lineno=init.lineno, col_offset=0)
+        out.append(ast.fix_missing_locations(a))
+    return out, (j - i) + 1
+
+
+def _pure_call(c: ast.Call) -> bool:
+    """calls that may be evaluated twice without a visible difference (dictionary views, len, range …)"""
+    f = c.func
+    if isinstance(f, ast.Attribute) and f.attr in ("items", "values", "keys", "get", "copy"):
+        return True
+    return isinstance(f, ast.Name) and f.id in ("len", "range", "enumerate", "zip", "list", "tuple", "sorted", "int", "float", "str", "bool", "abs", "min", "max", "isinstance")
 
 
 def _subst_leading_assigns(body: list[ast.stmt]) -> list[ast.stmt]:
